@@ -849,6 +849,7 @@ func init() {
 	for k, v := range ext {
 		externals[k] = v
 	}
+	installAtomics()
 	externals["internal/reflectlite.TypeOf"] = ext۰reflect۰TypeOf
 	externals["(reflect.rtype).Comparable"] = func(fr *frame, a []value) value {
 		return types.Comparable(a[0].(rtype).t)
@@ -1044,3 +1045,137 @@ func setStdGlobals(i *interpreter) {}
 
 // ssa۰Function is an alias to avoid importing ssa in this file's closures.
 type ssa۰Function = ssaFunction
+
+
+// sync/atomic: one interpreted goroutine runs at a time, so plain reads/writes are atomic; every
+// operation is a synchronisation point for the scheduler and the happens-before monitor.
+func installAtomics() {
+	used := func() { StubsUsed["sync/atomic (model: sequentially consistent cell operations)"] = true }
+	cell := func(v value) *value {
+		p := v.(*value)
+		if p == nil {
+			panic("runtime error: invalid memory address or nil pointer dereference")
+		}
+		return p
+	}
+	for _, ty := range []string{"Int32", "Int64", "Uint32", "Uint64", "Uintptr"} {
+		ty := ty
+		externals["sync/atomic.Load"+ty] = func(fr *frame, a []value) value {
+			used()
+			c := cell(a[0])
+			acquire(c)
+			return *c
+		}
+		externals["sync/atomic.Store"+ty] = func(fr *frame, a []value) value {
+			used()
+			c := cell(a[0])
+			release(c)
+			logCell(c)
+			*c = a[1]
+			sched.yield(nil)
+			return nil
+		}
+		externals["sync/atomic.Add"+ty] = func(fr *frame, a []value) value {
+			used()
+			c := cell(a[0])
+			acquire(c)
+			release(c)
+			logCell(c)
+			*c = binop(token.ADD, nil, *c, a[1])
+			r := *c
+			sched.yield(nil)
+			return r
+		}
+		externals["sync/atomic.Swap"+ty] = func(fr *frame, a []value) value {
+			used()
+			c := cell(a[0])
+			acquire(c)
+			release(c)
+			old := *c
+			logCell(c)
+			*c = a[1]
+			sched.yield(nil)
+			return old
+		}
+		externals["sync/atomic.CompareAndSwap"+ty] = func(fr *frame, a []value) value {
+			used()
+			c := cell(a[0])
+			acquire(c)
+			if eng.truth(binop(token.EQL, types.Typ[types.Int64], *c, a[1])) {
+				release(c)
+				logCell(c)
+				*c = a[2]
+				sched.yield(nil)
+				return true
+			}
+			return false
+		}
+		// methods of atomic.Int32 etc.: the value is the last field of the struct
+		field := func(v value) *value {
+			p := cell(v)
+			st := (*p).(structure)
+			return &st[len(st)-1]
+		}
+		externals["(*sync/atomic."+ty+").Load"] = func(fr *frame, a []value) value {
+			used()
+			c := field(a[0])
+			acquire(c)
+			return *c
+		}
+		externals["(*sync/atomic."+ty+").Store"] = func(fr *frame, a []value) value {
+			used()
+			c := field(a[0])
+			release(c)
+			logCell(c)
+			*c = a[1]
+			sched.yield(nil)
+			return nil
+		}
+		externals["(*sync/atomic."+ty+").Add"] = func(fr *frame, a []value) value {
+			used()
+			c := field(a[0])
+			acquire(c)
+			release(c)
+			logCell(c)
+			*c = binop(token.ADD, nil, *c, a[1])
+			r := *c
+			sched.yield(nil)
+			return r
+		}
+		externals["(*sync/atomic."+ty+").CompareAndSwap"] = func(fr *frame, a []value) value {
+			used()
+			c := field(a[0])
+			acquire(c)
+			if eng.truth(binop(token.EQL, types.Typ[types.Int64], *c, a[1])) {
+				release(c)
+				logCell(c)
+				*c = a[2]
+				sched.yield(nil)
+				return true
+			}
+			return false
+		}
+	}
+	externals["(*sync/atomic.Bool).Load"] = func(fr *frame, a []value) value {
+		used()
+		p := cell(a[0])
+		st := (*p).(structure)
+		acquire(&st[len(st)-1])
+		return eng.truth(binop(token.NEQ, types.Typ[types.Uint32], st[len(st)-1], uint32(0)))
+	}
+	externals["(*sync/atomic.Bool).Store"] = func(fr *frame, a []value) value {
+		used()
+		p := cell(a[0])
+		st := (*p).(structure)
+		c := &st[len(st)-1]
+		release(c)
+		logCell(c)
+		if eng.truth(a[1]) {
+			*c = uint32(1)
+		} else {
+			*c = uint32(0)
+		}
+		sched.yield(nil)
+		return nil
+	}
+}
